@@ -88,6 +88,8 @@ func (m *Model) Infer(t *syntax.Transaction) {
 			t.Bookings[i].Credit = m.inferAccount(t, &t.Bookings[i], debit)
 		}
 		if debit == m.account {
+			// the credit account may just have been inferred
+			credit = t.Bookings[i].Credit.Extract()
 			t.Bookings[i].Debit = m.inferAccount(t, &t.Bookings[i], credit)
 		}
 	}
